@@ -185,5 +185,16 @@ PROPS['C20'] = {
             'ProductSpace.__getitem__ / element indexing, MatrixWeighting, custom weightings',
     'technique': 'contract-based deductive verification: equivalence / hash-coherence laws as relational postconditions over symbolic execution of the real dunder methods, abstract hash keys, z3',
 }
+PROPS['C17'] = {
+    'level': 'proof',
+    'text': 'Deductive on ODL\'s dispatch around NumPy (NumPy\'s kernels are external): NumpyTensor.__array_ufunc__, writable_array, Tensor.__array__, NumpyTensorSpace.element / asarray and '
+            'DiscretizedSpaceElement.__array_ufunc__ are executed with an ABSTRACT ufunc (nout 1 and 2 with different result dtypes; __call__, reduce, accumulate, outer, at, reduceat) and abstract ndarrays known by '
+            'identity, for every out kind (none / element / tensor / ndarray), result dtype kind and dtype keyword: NumPy is called once with the caller\'s inputs (elements replaced by their own arrays, order kept) '
+            'and keywords; results are wrapped without copy in a space of the same class with shape / dtype of the result and the operand\'s weighting (exponent) where applicable; given out objects are returned '
+            'and receive the result directly or by write-back; error / NotImplemented paths; element(arr) shares memory for matching dtype and shape.',
+    'note': 'trusted: pyvc interpreter, the contract of NumPy\'s ufunc call / asarray / slice assignment on abstract arrays, result-space constructor taken by its arguments. Not under contract: the numbers NumPy computes, '
+            'ProductSpace ufuncs and the legacy x.ufuncs namespace, reduce / outer result spaces of DiscretizedSpaceElement (partition algebra)',
+    'technique': 'contract-based deductive verification: symbolic execution of the real dispatch code against an abstract ufunc with a ghost call log and identity-tracked abstract arrays',
+}
 for _k in PROPS:
     NOT_APPLICABLE.pop(_k, None)
